@@ -893,3 +893,126 @@ def settings_with_frame_table(ctx, rid):
         {"name": "truncated->H3_FRAME_ERROR", "atoms": [r"get_varint\(.*\) is None$"], "leaf": r"^return Err\(from\(ErrorCode::Frame\)\)$"},
     ]
     match_table(ctx, rid, f, walk(f), rows, "Settings::with_frame")
+
+
+# ------------------------------------------------------------------ Headers map: store / lookup identity
+
+def headers_store_identity(ctx, rid):
+    """`Headers::insert` stores (key, value) unchanged and `Headers::get` looks the key up unchanged.
+
+    Every guard evaluated on a field name before it is stored (reserved names in `SessionRequest::insert`,
+    `ConnectOptions::add_header`, `SessionResponse::add`) and every lookup by exact name (`:method`, `:status`, ...) relies on
+    the map key being the caller's string: a transformation between guard and store (case folding, trimming) lets a variant
+    spelling pass the guard and then collide with / overwrite the reserved entry."""
+    f = ctx.A.fn("wtransport_proto::headers::Headers::insert")
+    ps = nonpanic(walk(f))
+    evs = [event_strs(p) for p in ps]
+    want = ["ToString::to_string(&key)", "ToString::to_string(&value)",
+            "HashMap::insert(&*self.0,ToString::to_string(&key),ToString::to_string(&value))"]
+    ctx.check(rid, "Headers::insert stores (key,value) unchanged", len(ps) == 1 and evs[0] == want,
+              "Headers::insert no longer stores exactly (key.to_string(), value.to_string()): a field name/value is transformed "
+              "after the callers' guards were evaluated on it: %s" % evs, where(f))
+    f = ctx.A.fn("wtransport_proto::headers::Headers::get")
+    ps = nonpanic(walk(f))
+    ls = [path_sig(p)[1] for p in ps]
+    ctx.check(rid, "Headers::get looks the key up unchanged",
+              ls == ["return Option::map(HashMap::get(&*self.0,&*AsRef::as_ref(&key)),closure:Headers::{closure#0})"],
+              "Headers::get is no longer `self.0.get(key.as_ref()).map(String::as_str)`: %s" % ls, where(f))
+    cl = ctx.A.fn("wtransport_proto::headers::Headers::get::{closure#0}")
+    ls = [path_sig(p)[1] for p in nonpanic(walk(cl))]
+    ctx.check(rid, "Headers::get returns the stored value unchanged", ls == ["return String::as_str(&*s)"],
+              "Headers::get transforms the stored value: %s" % ls, where(cl))
+    # the map type: exact-match keys (a case-insensitive or normalising map type would change the guard semantics as well)
+    adt = ctx.A.adt("wtransport_proto::headers::Headers")
+    ty = adt["variants"][0]["fields"][0]["ty"]
+    ctx.check(rid, "Headers is HashMap<String,String>", re.search(r"HashMap<(std::string::)?String, (std::string::)?String", ty) is not None,
+              "Headers' inner map type changed: %s" % ty, adt["at"]["sp"])
+
+
+# ------------------------------------------------------------------ SessionRequest::new: what the five fields are built from
+
+def request_from_url(ctx, rid):
+    """`SessionRequest::new(url)`: on every accepting path the header set is exactly the five pseudo-headers with
+    :authority == url.authority() and :path == url.path() ++ ("?" ++ query if the URL has a query) — stated in the string
+    algebra of strexpr.py, so any spelling of the same concatenation is accepted and anything else (fragment, userinfo,
+    a dropped or re-encoded query) is reported."""
+    import strexpr
+    A = ctx.A
+    f = A.fn("wtransport_proto::session::SessionRequest::new")
+    with depth_limit(None):
+        ps = nonpanic(walk(f))
+    acc = [p for p in ps if p.leaf[0] == "return" and canon(p.leaf[1]).startswith("Result::Ok(")]
+    ctx.check(rid, "SessionRequest::new has an accepting path", bool(acc), "SessionRequest::new never returns Ok", where(f))
+    U = None
+    for p in acc:
+        pairs = {}
+
+        def find(e):
+            if isinstance(e, tuple):
+                if e and e[0] == "agg" and e[1] == "tuple" and len(e[5]) == 2:
+                    k = strexpr.parts(A, e[5][0])
+                    if len(k) == 1 and k[0][0] == "lit":
+                        pairs.setdefault(k[0][1], []).append(e[5][1])
+                        return
+                for x in e:
+                    find(x)
+        find(p.leaf)
+        ctx.check(rid, "request fields == the five pseudo-headers", sorted(pairs) == sorted(SPEC["reserved_headers"]),
+                  "SessionRequest::new builds fields %s, expected exactly %s" % (sorted(pairs), sorted(SPEC["reserved_headers"])), where(f))
+        for k, v in SPEC["request_pseudo"].items():
+            got = [strexpr.show(strexpr.parts(A, x)) for x in pairs.get(k, [])]
+            ctx.check(rid, "%s == '%s'" % (k, v), got == [repr(v)], "SessionRequest::new sets %s to %s, expected the literal '%s'" % (k, got, v), where(f))
+        # the parsed URL the request is built from: subject of the https guard
+        urls = {m.group(1) for a in path_sig(p)[0] for m in [re.match(r"^!<impl PartialEq<&B> for &A>::ne\(&Url::scheme\(&(.*)\),&\*'https'\)$", a)] if m}
+        if not ctx.check(rid, "accepting path is guarded by url.scheme() == 'https'", len(urls) == 1,
+                         "accepting path of SessionRequest::new is not guarded by `url.scheme() == \"https\"` (guards: %s)" % list(path_sig(p)[0]), where(f)):
+            continue
+        U = urls.pop()
+        au = [strexpr.parts(A, x) for x in pairs.get(":authority", [])]
+        ctx.check(rid, ":authority == url.authority()", au == [(("val", "Url::authority(&%s)" % U),)],
+                  ":authority is built as %s, expected Url::authority(&%s)" % ([strexpr.show(x) for x in au], U), where(f))
+        pa = [strexpr.parts(A, x) for x in pairs.get(":path", [])]
+        q = "Url::query(&%s)" % U
+        want_comb = (("val", "Url::path(&%s)" % U), ("opt", q, (("lit", "?"), strexpr.IT), ()))
+        want_some = (("val", "Url::path(&%s)" % U), ("lit", "?"), ("val", "(%s as Some).0" % q))
+        want_none = (("val", "Url::path(&%s)" % U),)
+        atoms = set(path_sig(p)[0])
+        if ("%s is Some" % q) in atoms:
+            want = [want_some, want_comb]
+        elif ("%s is None" % q) in atoms:
+            want = [want_none, want_comb]
+        else:
+            want = [want_comb]
+        ctx.check(rid, ":path == url.path() ++ ('?' ++ query)?", len(pa) == 1 and pa[0] in want,
+                  ":path is built as %s, expected %s" % ([strexpr.show(x) for x in pa], strexpr.show(want[0])), where(f))
+    return U
+
+
+# ------------------------------------------------------------------ ConnectStream::run: how the session stream's end is attributed
+
+def connect_stream_run_table(ctx, rid):
+    """decision table of `ConnectStream::run`: which DriverError each way of ending the session (CONNECT) stream produces"""
+    A = ctx.A
+    fn = A.find1(r"^wtransport::driver::streams::connect::ConnectStream::run::\{closure#0\}$")
+    RF = r"await\(<impl .*?>::read_frame\(&\*\(Option::as_mut\(&\*self\.stream\) as Some\)\.0\)\)"
+    CAP = r"Capsule::with_frame\(&\(%s as Ok\)\.0\)" % RF
+    CL = r"CloseWebTransportSession::with_capsule\(&\(%s as Some\)\.0\)" % CAP
+    rows = [
+        {"name": "no stream->pending", "atoms": [r"^Option::as_mut\(&\*self\.stream\) is None$"], "leaf": r"^pending$"},
+        {"name": "close capsule->ApplicationClosed(code,reason) + reset NoError",
+         "atoms": [r" is Data$", r"^%s is Some$" % CAP, r"^%s is Ok$" % CL],
+         "events": [r"::reset\(&Option::unwrap\(Option::take\(&\*self\.stream\)\),ErrorCode::to_code\(ErrorCode::NoError\)\)$"],
+         "leaf": r"^return DriverError::ApplicationClosed\(ApplicationClose::new\(CloseWebTransportSession::error_code\(&\(%s as Ok\)\.0\),Vec::into_boxed_slice\(<impl \[T\]>::to_vec\(&\*<impl str>::as_bytes\(&\*CloseWebTransportSession::reason\(&\(%s as Ok\)\.0\)\)\)\)\)\)$" % (CL, CL)},
+        {"name": "malformed capsule->Proto(code)", "atoms": [r"^%s is Err$" % CL], "leaf": r"^return DriverError::Proto\(\(%s as Err\)\.0\)$" % CL},
+        {"name": "unknown capsule->skip", "atoms": [r"^%s is None$" % CAP], "leaf": r"^continue$"},
+        {"name": "non-DATA frame->skip", "atoms": [r" isnot Data$"], "leaf": r"^continue$"},
+        {"name": "H3(code)->Proto(code)", "atoms": [r" is H3$"], "leaf": r"^return DriverError::Proto\(\(\(%s as Err\)\.0 as H3\)\.0\)$" % RF},
+        {"name": "clean FIN->ApplicationClosed(0,[])", "atoms": [r" is ImmediateFin$"],
+         "leaf": r"^return DriverError::ApplicationClosed\(ApplicationClose::new\(VarInt::from_u32\(0\),\(Box::new\(\[\]\) as std::boxed::Box<\[u8\]>\)\)\)$"},
+        {"name": "FIN inside frame->ClosedCriticalStream", "atoms": [r" is UnexpectedFin$"], "leaf": r"^return DriverError::Proto\(ErrorCode::ClosedCriticalStream\)$"},
+        {"name": "reset->ClosedCriticalStream", "atoms": [r" is Reset$"], "leaf": r"^return DriverError::Proto\(ErrorCode::ClosedCriticalStream\)$"},
+        {"name": "NotConnected", "atoms": [r" is NotConnected$"], "leaf": r"^return DriverError::NotConnected$"},
+    ]
+    paths = walk(fn)
+    match_table(ctx, rid, fn, paths, rows, "ConnectStream::run")
+    ctx.sample({"rule": rid, "fn": fn.path, "table": [[list(path_sig(p)[0])[-3:], path_sig(p)[1][:200]] for p in paths]})
